@@ -309,6 +309,29 @@ func rulesC07(e *Engine, r *Report) {
 		}
 		r.Min("R07.7", "gap-scan positions found", found, 2)
 	}
+	// ---------------------------------------------------------------- R07.8
+	r.Rule("R07.8", "a resumed file allocates exactly its missing ranges: recoverFile.Allocate returns range.Beg + used (values before the call), advances used by the desired length inside a range, and at a range's end returns End-offset, moves to the next range and leaves used at 0 as the last write (as R11.1); it is done when all ranges were handed out; its send size is the sum of the missing ranges")
+	e.checkRecoverAllocate(r, "R07.8")
+	if fn := needFn(e, r, "R07.8", "client.(*recoverFile).IsAllocated"); fn != nil {
+		ok := false
+		Instrs(fn, func(in ssa.Instruction) {
+			if rt, ok2 := in.(*ssa.Return); ok2 && len(rt.Results) == 1 && e.CondStr(rt.Results[0], true) == "(builtin(len)(p0.left) == p0.part)" {
+				ok = true
+			}
+		})
+		r.Check(ok, "R07.8", "client.(*recoverFile).IsAllocated: done ⇔ every missing range was handed out", e.Pos(fn.Pos()), "the completion test is no longer part == len(left)", 1)
+	}
+	if fn := needFn(e, r, "R07.8", "client.(*recoverFile).GetSendSize"); fn != nil {
+		acc := e.findInstrs(fn, "§", false)
+		_ = acc
+		ok := false
+		Instrs(fn, func(in ssa.Instruction) {
+			if ph, ok2 := in.(*ssa.Phi); ok2 && strings.Contains(e.Canon(ph), "+ (p0.left[") && strings.Contains(e.Canon(ph), "].End - p0.left[") {
+				ok = true
+			}
+		})
+		r.Check(ok, "R07.8", "client.(*recoverFile).GetSendSize: Σ(End-Beg) over the missing ranges", e.Pos(fn.Pos()), "the number of bytes a resumed file still has to send is not the sum of its missing ranges (the tracker would log it as sent too early or never)", 1)
+	}
 }
 
 // outermostLoop returns the header and back-edge terminators of the outermost
